@@ -207,6 +207,12 @@ func (c *Case) Bubble(body func()) {
 				panic(p)
 			}
 
+			// Save the replay now: if a library goroutine stays blocked for ever (e.g. a Get that never
+			// returns), leaving the bubble panics with "deadlock" and the structured failure would be lost.
+			if c.fail != nil {
+				writeReplay(c)
+			}
+
 			pend = p
 		}()
 
